@@ -497,7 +497,7 @@ func c02HelperResult(c *Check, id string, r *RouterRoles, pubErrCalls []ssa.Call
 			}
 			return false
 		}
-		empty, _ := LenZeroEdges(H, isOut)
+		empty, nonEmpty := LenZeroEdges(H, isOut)
 		okEdges := append(append([]Edge{}, hOK...), empty...)
 		for i, ret := range Returns(H) {
 			k := fmt.Sprintf("return#%d", i)
@@ -510,6 +510,10 @@ func c02HelperResult(c *Check, id string, r *RouterRoles, pubErrCalls []ssa.Call
 				} else {
 					ok := hp(v) || IsGlobalLoad(v, msgPkg, "ErrOutputInNoPublisherHandler") || wrapsOneOf(v, hp)
 					c.Report(ok, id, "HELPER-ERROR-KEPT", H, ret.Pos(), k, "a non-nil result is the Publish error (possibly wrapped) or ErrOutputInNoPublisherHandler")
+					if IsGlobalLoad(v, msgPkg, "ErrOutputInNoPublisherHandler") {
+						c.Report(len(nonEmpty) > 0 && (GuardedBy(H, ret, nonEmpty) || nilOnlyOnEdges(ret, v, nonEmpty)), id, "NO-PUBLISHER-ERROR-ONLY-WITH-OUTPUTS", H, ret.Pos(), k,
+							"the 'outputs in a no-publisher handler' error is raised only when the handler returned messages (a handler that returns none succeeds, publisher or not)")
+					}
 				}
 			}
 		}
